@@ -488,6 +488,49 @@ pub fn run(ctx: &Ctx) {
         if r != Ok(ris::encode(&ris::one_way_map(&w64))) {
             ctx.violation("group.RistrettoPoint.random", "random", json!({"kind": "group_random"}));
         }
+        // the Ristretto trait methods on *every representative* of each element (the inner Edwards point shifted by
+        // the 4-torsion through the hook): they must agree with the inherent, coset-aware API
+        for k in c06::rpool(9) {
+            for shift in 0..4usize {
+                ctx.eval(1);
+                let inner = &curve25519_dalek::verif::ristretto_inner(&k.real) + &curve25519_dalek::constants::EIGHT_TORSION[2 * shift];
+                let p = curve25519_dalek::verif::ristretto_from_inner(&inner);
+                let m_id = ris::equal(&k.pt, &ed::ID);
+                let case = json!({"kind": "ris_traits", "point": k.name, "coset_shift": shift});
+                let r = guarded(|| {
+                    let mut bad: Vec<&'static str> = Vec::new();
+                    if bool::from(Group::is_identity(&p)) != m_id || curve25519_dalek::traits::IsIdentity::is_identity(&p) != m_id || (p == <RistrettoPoint as Group>::identity()) != m_id {
+                        bad.push("Group::is_identity / IsIdentity / == identity");
+                    }
+                    if GroupEncoding::to_bytes(&p) != ris::encode(&k.pt) || p.compress().0 != ris::encode(&k.pt) {
+                        bad.push("GroupEncoding::to_bytes / compress");
+                    }
+                    if GroupEncoding::to_bytes(&Group::double(&p)) != ris::encode(&k.pt.dbl()) {
+                        bad.push("Group::double");
+                    }
+                    if p != k.real || !bool::from(subtle::ConstantTimeEq::ct_eq(&p, &k.real)) {
+                        bad.push("equality of representatives");
+                    }
+                    let diff = p - k.real;
+                    if !bool::from(Group::is_identity(&diff)) || GroupEncoding::to_bytes(&diff) != [0u8; 32] {
+                        bad.push("P - P' (different representatives) is the identity");
+                    }
+                    let sub: Option<RistrettoPoint> = CofactorGroup::into_subgroup(p).into();
+                    if sub != Some(p) || !bool::from(CofactorGroup::is_torsion_free(&p)) || CofactorGroup::clear_cofactor(&p) != p {
+                        bad.push("CofactorGroup");
+                    }
+                    bad
+                });
+                match r {
+                    Err(e) => ctx.violation("group.RistrettoPoint.representatives", &format!("panic: {}", e), case),
+                    Ok(bad) => {
+                        for w in bad {
+                            ctx.violation("group.RistrettoPoint.representatives", &format!("{} disagrees on a non-canonical representative", w), case.clone());
+                        }
+                    }
+                }
+            }
+        }
         // Ristretto CofactorGroup is trivial
         for k in c06::rpool(5) {
             let p = k.real;
